@@ -482,11 +482,17 @@ pub fn run(a: &Args) {
     let mut out = Out::new(&a.out);
     let mut rng = Rng::new(a.seed);
     let thorough = a.tier == "thorough";
-    // fixed corpus first
+    out.op(
+        format!("V {} {}", crate::cfg::CODE_WAL_FORMAT, crate::cfg::CODE_SEGMENT_STRICT_COUNT as u8),
+        format!("format {} strict {}", crate::cfg::CODE_WAL_FORMAT, crate::cfg::CODE_SEGMENT_STRICT_COUNT as u8),
+    );
+    // fixed corpus first (both were defects, repaired by `fix:` commits: they must PASS now)
     {
         let w = embedded_footer_witness();
+        let before = out.oracle.len();
         segment_case(&w, &mut rng, &mut out, false, "corpus:embedded-footer");
         wal_entry_damage(&w[0], &mut rng, &mut out, false, true);
+        out.count(if out.oracle.len() == before { "corpus:embedded-footer+stamp-flip:pass" } else { "corpus:embedded-footer+stamp-flip:FAIL" });
     }
     // a 1 MiB value and a 300-field hash: round trips on the Rust side only (no model op: the
     // line protocol would carry megabytes of hex)
